@@ -6,6 +6,7 @@ import (
 	"os"
 	"path/filepath"
 	"sort"
+	"strings"
 )
 
 // naReasons: why a property is not claimed while no rule for it is registered.
@@ -52,8 +53,8 @@ func writeManifest(vd string) {
 			Evidence:   "evidence/" + id + ".json",
 			Replay:     "bin/wzcheck -replay {path}",
 			Engine:     "wzcheck",
-			Level: lvl{"other", "Static analysis of the source. " + sp.Explanation + " NOT decided: " + sp.NotDecided,
-				"DESIGN.md §4 " + id},
+			Level: lvl{"other", "Static analysis of the source. " + sp.Explanation + extraClauses(sp) + " NOT decided: " + sp.NotDecided,
+				"DESIGN.md §4 " + id + ", §11, §14"},
 			Note:      "Trusted: Go type checker and go/ssa (x/tools v0.29.0), the frozen tables in the checker, and: " + joinStr(sp.Assumptions),
 			Technique: tech,
 		})
@@ -98,6 +99,27 @@ func writeManifest(vd string) {
 		fatal(2, "%v", err)
 	}
 	fmt.Printf("MANIFEST.json written: %d checks, %d not applicable\n", len(checks), len(nas))
+}
+
+// extraClauses: rules registered for the property that its hand-written explanation does not name
+// yet (added after later seeding rounds) are listed with their one-line statement, so that the
+// claimed level always says everything that is decided.
+func extraClauses(sp PropSpec) string {
+	out := ""
+	for _, rl := range sp.Rules {
+		base := rl.Name
+		if i := strings.IndexAny(base, "/ ("); i > 0 {
+			base = base[:i]
+		}
+		if strings.Contains(sp.Explanation, "("+base) || strings.Contains(sp.Explanation, base+")") || strings.Contains(sp.Explanation, base+"/") || strings.Contains(sp.Explanation, "/"+base) {
+			continue
+		}
+		out += " (" + rl.Name + ") " + rl.Doc + ";"
+	}
+	if out != "" {
+		out = " Further structural clauses decided:" + strings.TrimSuffix(out, ";") + "."
+	}
+	return out
 }
 
 func joinStr(s []string) string {
